@@ -1,85 +1,122 @@
 (* C15  Unused-variable warnings are exact and per-method.
 
-   Model: Model/UnusedVar.v (AstWalker + UnusedVarAnalyzer as they are since /repo e5fd419 and
-   993bb42: `key_today` = upper-cased keys, the message prints the declared spelling, string-literal
-   terminals are skipped).  Specification on trees, guards and proofs: Proofs/UnusedVarProofs.v.
-   Concrete trees (dumps of what the real parser builds): Proofs/UnusedVarWitness.v.
+   "A local variable is reported unused if and only if no statement of its own method mentions it other
+    than as the member name to the right of a dot, names being matched without regard to letter case; the
+    warning is placed on the variable's declared name.  The warnings for one method are unaffected by the
+    contents and order of the other methods and by renaming the variable consistently."
 
-   The statement of C15 is still FALSE of the code in several ways; each way is a `_refuted`
-   theorem below with a witness that fails exactly one guard (or, for the three constructs the tree
-   does not show, satisfies all of them), and the statement is proved under the conjunction of the
-   guards (WFm).  The guards, per method m (WFmeth) and outside methods (WFtop):
-     WFtop   no method node / local declaration outside the top-level methods, and no non-literal
-             terminal in a declaration FOLLOWING a method that the analyser would charge to a local of it
-     G_flat  no method node inside a method
-     G_dup   no two local declarations of one method under the same key (= differing in case only)
-     G_order a local counted as used before its declaration is visited is also used after it
-     G_pos   a later operand of a '.' never has both the text and the start position of the first one
-   Repaired (the guards G_case and G_lit that excluded them are gone, the former witnesses are
-   regression examples below): a use in another letter case was not counted (e5fd419); the content
-   of a string literal counted as a use (993bb42). *)
+   Model: Model/UnusedVar.v (AstWalker + UnusedVarAnalyzer as repaired by tools/c15_proposed_fix.diff:
+   a method is analysed as a whole when the walker reaches its node).  Specification on trees and proofs:
+   Proofs/UnusedVarProofs.v.  Concrete trees (dumps of what the real parser builds): Proofs/UnusedVarWitness.v.
+
+   The statement holds of the model for EVERY tree, without guards.  How the property is read on a tree:
+     method            a node of kind AstProcedure / AstFunction, wherever it is (all_methods; in a parsed tree
+                       the method nodes are exactly the root's children of these kinds: top_flat,
+                       C15_methods_top_level)
+     its statements    the children of its AstMethodBody child (stmts); the header - the method's name, the
+                       parameters, the return type - is not a statement
+     local variable    an AstLocalVariableDeclaration anywhere in the statements; a name declared again in
+                       any letter case is not a new variable: it gets "Var name already declared" and the
+                       variable is the first declaration (locals / redeclared)
+     mentions x        an identifier terminal or the name of a call, neither in member position, or the
+                       counter of a for block, spelled like x ignoring case (is_mention); member position:
+                       every operand of a '.' but the first, the first operand of a '.' that is itself in
+                       member position, the base of an indexed member (member_pos); declaratively: MentionsIn
+   The analyser before the repair falsified the statement in five ways; they are kept as theorems about
+   the old visit function (Model.analyze_old): C15_old_*_refuted, each beside the regression example
+   showing the same tree now satisfies the property. *)
 From Coq Require Import Permutation.
 From GoldV Require Import Base Tokens Lexer AstKinds Tree UnusedVar UnusedVarProofs UnusedVarWitness.
 
-(* ---- exactness ---- *)
+(* ---- exactness: no guard ---- *)
 
-(* all trees, any key function that identifies exactly the case variants of a name *)
+(* all trees, any key function that identifies exactly the case variants of a name: the warnings are the
+   specified ones, in the specified order *)
 Theorem C15_unused_exact :
-  forall keyf file, key_ci keyf -> WFm keyf file ->
-  Permutation (unused_vars keyf file) (unused_spec file).
-Proof. exact unused_exact. Qed.
+  forall keyf file, key_ci keyf -> unused_vars keyf file = unused_spec file.
+Proof. exact unused_exact_eq. Qed.
 
 (* the code as it is *)
 Theorem C15_unused_exact_today :
-  forall file, WFm key_today file ->
-  Permutation (unused_vars key_today file) (unused_spec file).
-Proof. intros file. apply unused_exact. exact key_ci_today. Qed.
+  forall file, unused_vars key_today file = unused_spec file.
+Proof. intro file. apply unused_exact_eq. exact key_ci_today. Qed.
 
-(* guard-free: what the analyser reports for a method without nested method nodes, exactly:
-   the first declaration of each key iff no counted use follows it *)
-Theorem C15_method_warnings_exactly :
-  forall keyf m, G_flat m ->
-  filter is_unused_diag (method_report keyf m) = fresh_warns keyf [] (sub_events m).
-Proof. intros keyf m H. apply unused_of_stretch. exact H. Qed.
+(* the "if and only if" for one local of one method *)
+Theorem C15_reported_iff :
+  forall keyf m d, key_ci keyf -> In d (locals m) ->
+  (In (warn_of (nident d) (ident_range d)) (method_report keyf m) <->
+   ~ exists s, In s (stmts m) /\ MentionsIn (nident d) false s).
+Proof. exact reported_iff. Qed.
 
-(* ---- per method ---- *)
+(* the boolean `mentions` of the specification says: some statement mentions x outside member position *)
+Theorem C15_mentions_reading :
+  forall m x, mentions m x = true <-> exists s, In s (stmts m) /\ MentionsIn x false s.
+Proof. exact mentions_iff. Qed.
 
-(* a method's report is what the analyser says about that method alone ... *)
-Theorem C15_method_report_alone :
-  forall keyf m, is_method m = true -> analyze keyf (solo m) = method_report keyf m.
-Proof. exact analyze_solo. Qed.
+(* the other diagnostic: one error per repeated declaration, exactly *)
+Theorem C15_duplicates_exact :
+  forall keyf file, key_ci keyf -> dup_errors keyf file = dup_spec file.
+Proof. exact dups_exact_eq. Qed.
 
-(* ... and under WFtop the file's report is the concatenation of its methods' reports *)
+(* one method: the errors for the repeated declarations, then the specified warnings *)
+Theorem C15_method_report_exactly :
+  forall keyf m, key_ci keyf -> method_report keyf m = map dup_diag (redeclared m) ++ method_spec m.
+Proof. exact method_report_spec. Qed.
+
+(* ---- per method: no guard ---- *)
+
+(* the file's report is the concatenation of its method nodes' reports, each a function of that node alone *)
 Theorem C15_report_decomposes :
-  forall keyf file, WFtop keyf file -> analyze keyf file = flat_map (method_report keyf) (methods file).
+  forall keyf file, analyze keyf file = flat_map (method_report keyf) (all_methods file).
 Proof. exact report_decomposes. Qed.
+
+(* whatever else two trees contain: the same method nodes, the same report *)
+Theorem C15_report_methods_only :
+  forall keyf file file', all_methods file = all_methods file' -> analyze keyf file = analyze keyf file'.
+Proof. exact report_methods_only. Qed.
 
 (* permuting the top-level declarations permutes the report *)
 Theorem C15_unused_per_method :
   forall keyf file file', Permutation (nchildren file) (nchildren file') ->
-  WFtop keyf file -> WFtop keyf file' -> Permutation (analyze keyf file) (analyze keyf file').
+  Permutation (analyze keyf file) (analyze keyf file').
 Proof. exact report_per_method. Qed.
 
-(* ---- placement (guard-free) ---- *)
+(* in a tree of the shape the parser builds the methods are the root's method children ... *)
+Theorem C15_methods_top_level :
+  forall file, top_flat file -> all_methods file = methods file.
+Proof. exact all_methods_top. Qed.
 
-(* every diagnostic sits on the name token of a local declaration of the file; a warning prints
+Theorem C15_unused_exact_parsed :
+  forall file, top_flat file -> unused_vars key_today file = flat_map method_spec (methods file).
+Proof. intros file H. rewrite C15_unused_exact_today. unfold unused_spec. rewrite (all_methods_top _ H). reflexivity. Qed.
+
+(* ... and a method's report is what the analyser says about that method alone *)
+Theorem C15_method_report_alone :
+  forall keyf m, is_method m = true -> Forall (fun n => is_method n = false) (flat_map subnodes (nchildren m)) ->
+  analyze keyf (solo m) = method_report keyf m.
+Proof. exact analyze_solo_flat. Qed.
+
+(* ---- placement: no guard ---- *)
+
+(* every diagnostic sits on the name token of a local declaration of a method of the file; a warning prints
    that declaration's spelling and is a WARNING, the other class is an ERROR *)
 Theorem C15_placement :
-  forall keyf file, Forall (diag_from (fun e => In e (events file))) (analyze keyf file).
+  forall keyf file,
+  Forall (fun d => exists m n, In m (all_methods file) /\ In n (local_decls m) /\ diag_on d n) (analyze keyf file).
 Proof. exact placement. Qed.
 
 Theorem C15_placement_token :
   forall n t, attr_tok K_ident n = Some t -> ident_range n = trange t.
 Proof. intros n t H. unfold ident_range. rewrite H. reflexivity. Qed.
 
-(* ---- renaming (guard-free) ---- *)
+(* ---- renaming: no guard ---- *)
 
-(* applying an injective map f to every name (g = what f does to the keys) maps the names in the
-   warnings and changes nothing else *)
+(* applying an injective map f to every name - identifiers and token values - (g = what f does to the
+   keys) maps the names in the warnings and changes nothing else *)
 Theorem C15_unused_rename :
-  forall keyf f g file, injective f -> injective g -> (forall s, keyf (f s) = g (keyf s)) ->
+  forall keyf f g file, injective g -> (forall s, keyf (f s) = g (keyf s)) ->
   analyze keyf (map_idents f file) = map (dmap f) (analyze keyf file).
-Proof. exact rename_equivariant. Qed.
+Proof. intros keyf f g file Hg Hfg. exact (rename_equivariant keyf f g Hg Hfg file). Qed.
 
 (* today's code (case-insensitive keys), an instance: every name gets a prefix *)
 Theorem C15_unused_rename_today :
@@ -87,161 +124,208 @@ Theorem C15_unused_rename_today :
   analyze key_today (map_idents (prefix_name c) file) = map (dmap (prefix_name c)) (analyze key_today file).
 Proof. exact rename_prefix_upper. Qed.
 
-(* ---- the guards are decidable ---- *)
-
-Theorem C15_guards_checked :
-  forall keyf file, guard_flags keyf file = [true; true; true; true; true] -> WFm keyf file.
-Proof. exact guard_flags_all. Qed.
-
-(* ---- non-vacuity: a real tree (class header, a field, a procedure with a parameter, three
-        locals used after a dot / in an assignment / as the left of a dot in a nested block, a
-        function with a used and an unused local) satisfies every guard; two warnings, three
-        locals not reported ---- *)
+(* ---- non-vacuity: a real tree (class header, a field, a procedure with a parameter, three locals used
+        after a dot / in an assignment / as the left of a dot in a nested block, a function with a used and
+        an unused local): two warnings, three locals not reported ---- *)
 
 Definition show (l : list diag) : list (N * N * N * N * str) :=
   map (fun d => (dsev d, dclass d, pline (rstart (drange d)), pcol (rstart (drange d)), dkey d)) l.
 
 Example C15_nonvacuous :
-  WFm key_today w_ok /\
-  length (flat_map local_decls (methods w_ok)) = 5%nat /\
+  top_flat w_ok /\ length (methods w_ok) = 2%nat /\
+  length (flat_map locals (methods w_ok)) = 5%nat /\
   show (analyze key_today w_ok) = [(2, 0, 5, 5, [120]); (2, 0, 17, 5, [119])] /\
-  unused_vars key_today w_ok = unused_spec w_ok.
+  show (unused_spec w_ok) = [(2, 0, 5, 5, [120]); (2, 0, 17, 5, [119])].
+Proof. split; [apply top_flat_b_sound; vm_compute; reflexivity|]. vm_compute. repeat split; reflexivity. Qed.
+
+(* a method mixing the constructs: `for A = 1 to 3` / `ob.a(B).c[d] = 1` with locals a b c d: a is the
+   for counter (and a called member: not a mention), b an argument, d an index; c only an indexed member *)
+Example C15_mixed_nonvacuous :
+  length (flat_map locals (all_methods w_mixed)) = 4%nat /\
+  show (analyze key_today w_mixed) = [(2, 0, 3, 5, [99])] /\ show (unused_spec w_mixed) = [(2, 0, 3, 5, [99])].
+Proof. vm_compute. repeat split; reflexivity. Qed.
+
+Example C15_reported_iff_nonvacuous :
+  let m := hd w_ok (all_methods w_mixed) in
+  let dc := nth 2 (locals m) w_ok in let da := nth 0 (locals m) w_ok in
+  In dc (locals m) /\ In (warn_of (nident dc) (ident_range dc)) (method_report key_today m) /\
+  In da (locals m) /\ ~ In (warn_of (nident da) (ident_range da)) (method_report key_today m).
 Proof.
-  split; [apply guard_flags_all; vm_compute; reflexivity|]. vm_compute. repeat split; reflexivity.
+  cbv zeta. vm_compute. split; [right; right; left; reflexivity|]. split; [left; reflexivity|].
+  split; [left; reflexivity|]. intros [H|[]]. discriminate H.
 Qed.
 
-(* permuting the top-level declarations of a tree that stays WFtop *)
+(* the same methods around different other declarations; a method alone *)
+Example C15_methods_only_nonvacuous :
+  let file' := Node KAstRoot [] 0 range0 [] [w_trail_0; w_trail_2; w_trail_1] in
+  all_methods w_trail = all_methods file' /\ w_trail <> file' /\
+  analyze key_today w_trail = analyze key_today file' /\ length (analyze key_today w_trail) = 1%nat.
+Proof.
+  cbv zeta. assert (H : all_methods w_trail = all_methods (Node KAstRoot [] 0 range0 [] [w_trail_0; w_trail_2; w_trail_1]))
+    by (vm_compute; reflexivity).
+  split; [exact H|]. split; [intro E; vm_compute in E; discriminate E|]. split; [apply report_methods_only; exact H|].
+  vm_compute. reflexivity.
+Qed.
+
+Example C15_method_alone_nonvacuous :
+  is_method w_trail_0 = true /\ Forall (fun n => is_method n = false) (flat_map subnodes (nchildren w_trail_0)) /\
+  show (analyze key_today (solo w_trail_0)) = [(2, 0, 1, 5, [120])] /\
+  method_report key_today w_trail_0 = analyze key_today (solo w_trail_0).
+Proof.
+  split; [vm_compute; reflexivity|]. split; [|vm_compute; split; reflexivity].
+  apply Forall_forall. intros n Hn. vm_compute in Hn.
+  repeat (destruct Hn as [<-|Hn]; [vm_compute; reflexivity|]). destruct Hn.
+Qed.
+
+(* permuting the top-level declarations *)
 Example C15_per_method_nonvacuous :
   let file' := Node KAstRoot [] 0 range0 [] (rev (nchildren w_ok)) in
-  WFtop key_today w_ok /\ WFtop key_today file' /\ methods file' <> methods w_ok /\
+  methods file' <> methods w_ok /\ analyze key_today file' <> analyze key_today w_ok /\
   Permutation (analyze key_today w_ok) (analyze key_today file').
 Proof.
-  cbv zeta.
-  assert (H1 : WFtop key_today w_ok) by (apply wftop_b_sound; vm_compute; reflexivity).
-  assert (H2 : WFtop key_today (Node KAstRoot [] 0 range0 [] (rev (nchildren w_ok))))
-    by (apply wftop_b_sound; vm_compute; reflexivity).
-  split; [exact H1|]. split; [exact H2|]. split; [vm_compute; discriminate|].
-  apply report_per_method; [|exact H1|exact H2]. cbn [nchildren]. apply Permutation_rev.
+  cbv zeta. split; [vm_compute; discriminate|]. split; [vm_compute; discriminate|].
+  apply report_per_method. cbn [nchildren]. apply Permutation_rev.
 Qed.
 
 Example C15_rename_nonvacuous :
-  show (analyze key_today (map_idents (prefix_name 113) w_ok)) = [(2, 0, 5, 5, [113; 120]); (2, 0, 17, 5, [113; 119])].
-Proof. vm_compute. reflexivity. Qed.
+  show (analyze key_today (map_idents (prefix_name 113) w_ok)) = [(2, 0, 5, 5, [113; 120]); (2, 0, 17, 5, [113; 119])] /\
+  show (analyze key_today (map_idents (prefix_name 113) w_forctr)) = [] /\
+  mention_names false (map_idents (prefix_name 113) w_forctr) <> mention_names false w_forctr.
+Proof. vm_compute. repeat split; try reflexivity. discriminate. Qed.
 
-(* ---- regression: the two repaired classes, on the trees of their former witnesses ---- *)
+(* ---- regression: classes repaired earlier, on the trees of their former witnesses ---- *)
 
-(* `var x : int4` ... `X = 1`: the use in another letter case is counted (was R1, /repo e5fd419) *)
+(* `var x : int4` ... `X = 1`: the use in another letter case is counted (/repo e5fd419) *)
 Example C15_case_regression :
-  WFm key_today w_case /\ analyze key_today w_case = [] /\ unused_spec w_case = [].
-Proof. split; [apply guard_flags_all; vm_compute; reflexivity|]. vm_compute. split; reflexivity. Qed.
+  analyze key_today w_case = [] /\ unused_spec w_case = [].
+Proof. vm_compute. split; reflexivity. Qed.
 
-(* `var s : int4` ... `foo('s')`: the content of a string literal is not a use (was R2, /repo 993bb42) *)
+(* `var s : int4` ... `foo('s')`: the content of a string literal is not a use (/repo 993bb42) *)
 Example C15_literal_regression :
-  WFm key_today w_lit /\ show (analyze key_today w_lit) = [(2, 0, 1, 5, [115])] /\
-  unused_vars key_today w_lit = unused_spec w_lit.
-Proof. split; [apply guard_flags_all; vm_compute; reflexivity|]. vm_compute. split; reflexivity. Qed.
+  show (analyze key_today w_lit) = [(2, 0, 1, 5, [115])] /\ unused_vars key_today w_lit = unused_spec w_lit.
+Proof. vm_compute. split; reflexivity. Qed.
 
-(* ---- refutations: the unguarded statement is false of the code; each witness fails exactly one
-        guard (flags: [WFtop; G_flat; G_dup; G_order; G_pos]) ---- *)
+(* `var x` twice: the second declaration gets the ERROR, the variable is the first one *)
+Example C15_duplicate_regression :
+  show (analyze key_today w_dup) = [(1, 1, 2, 5, []); (2, 0, 1, 5, [120])] /\
+  show (unused_spec w_dup) = [(2, 0, 1, 5, [120])] /\ show (dup_spec w_dup) = [(1, 1, 2, 5, [])].
+Proof. vm_compute. repeat split; reflexivity. Qed.
+
+(* ---- the five deviations repaired by tools/c15_proposed_fix.diff.  For each: the statement was false
+        of the analyser as it was (analyze_old: the visit function before the repair, on the dump of the
+        real parser's tree), and the same tree now satisfies it ---- *)
 
 Ltac not_perm := let H := fresh in intro H; apply Permutation_length in H; vm_compute in H; discriminate H.
 
-(* R3  proc p (var x) / proc q / `memory f : int4 absolute x`: moving the field right after p
-       silences p's warning: the report is NOT a function of the methods alone *)
-Theorem C15_per_method_refuted :
+(* R3  proc p (var x) / proc q / `memory f : int4 absolute x`: the field placed right after p silenced p's
+       warning (the map was reset at the NEXT method only): the report was not a function of the methods *)
+Theorem C15_old_trailing_refuted :
   exists file file',
     Permutation (nchildren file) (nchildren file') /\
-    guard_flags key_today file = [true; true; true; true; true] /\
-    guard_flags key_today file' = [false; true; true; true; true] /\
-    show (analyze key_today file) = [(2, 0, 1, 5, [120])] /\ analyze key_today file' = [] /\
-    ~ Permutation (analyze key_today file) (analyze key_today file').
+    show (analyze_old key_today file) = [(2, 0, 1, 5, [120])] /\ analyze_old key_today file' = [] /\
+    show (unused_spec file') = [(2, 0, 1, 5, [120])] /\
+    ~ Permutation (analyze_old key_today file) (analyze_old key_today file') /\
+    ~ Permutation (unused_vars_old key_today file') (unused_spec file').
 Proof.
   exists w_trail, (Node KAstRoot [] 0 range0 [] [w_trail_0; w_trail_2; w_trail_1]).
   split; [cbn [nchildren w_trail]; apply perm_skip; apply perm_swap|].
-  repeat split; try (vm_compute; reflexivity). not_perm.
+  repeat split; try (vm_compute; reflexivity); not_perm.
 Qed.
 
-Theorem C15_trailing_refuted :
-  exists file,
-    guard_flags key_today file = [false; true; true; true; true] /\
-    unused_vars key_today file = [] /\ show (unused_spec file) = [(2, 0, 1, 5, [120])] /\
-    ~ Permutation (unused_vars key_today file) (unused_spec file).
-Proof.
-  exists (Node KAstRoot [] 0 range0 [] [w_trail_0; w_trail_2; w_trail_1]).
-  repeat split; try (vm_compute; reflexivity). not_perm.
-Qed.
+Example C15_trailing_regression :
+  let file' := Node KAstRoot [] 0 range0 [] [w_trail_0; w_trail_2; w_trail_1] in
+  show (analyze key_today w_trail) = [(2, 0, 1, 5, [120])] /\
+  show (analyze key_today file') = [(2, 0, 1, 5, [120])] /\ unused_vars key_today file' = unused_spec file'.
+Proof. vm_compute. repeat split; reflexivity. Qed.
 
-(* R4a  `x = 1` before `var x : int4`: a use that precedes the declaration is not counted *)
-Theorem C15_use_before_decl_refuted :
+(* R4  `x = 1` before `var x : int4`: a use that precedes the declaration was not counted *)
+Theorem C15_old_use_before_decl_refuted :
   exists file,
-    guard_flags key_today file = [true; true; true; false; true] /\
-    show (unused_vars key_today file) = [(2, 0, 2, 5, [120])] /\ unused_spec file = [] /\
-    ~ Permutation (unused_vars key_today file) (unused_spec file).
+    show (unused_vars_old key_today file) = [(2, 0, 2, 5, [120])] /\ unused_spec file = [] /\
+    ~ Permutation (unused_vars_old key_today file) (unused_spec file).
 Proof. exists w_order. repeat split; try (vm_compute; reflexivity). not_perm. Qed.
 
-(* R4b  `var x` twice: the second declaration gets the ERROR and is never reported unused *)
-Theorem C15_duplicate_refuted :
-  exists file,
-    guard_flags key_today file = [true; true; false; true; true] /\
-    show (analyze key_today file) = [(1, 1, 2, 5, []); (2, 0, 1, 5, [120])] /\
-    length (unused_spec file) = 2%nat /\
-    ~ Permutation (unused_vars key_today file) (unused_spec file).
-Proof. exists w_dup. repeat split; try (vm_compute; reflexivity). not_perm. Qed.
+Example C15_use_before_decl_regression :
+  analyze key_today w_order = [] /\ unused_spec w_order = [] /\ length (flat_map locals (all_methods w_order)) = 1%nat.
+Proof. vm_compute. repeat split; reflexivity. Qed.
 
-(* ---- the property read on the source text: three more ways in which it fails, invisible to the
-        tree-level specification above because of how the parser builds the tree (every guard holds
-        on these witnesses and the analyser agrees with unused_spec, but not with unused_spec_ext) ---- *)
-
-(* R5  `var x` ... `x(1)`: the name of a call is not a node of the tree: reported unused *)
-Theorem C15_callee_refuted :
+(* R5  `var x` ... `x(1)`: the name of a call is not a node of the tree: it was reported unused *)
+Theorem C15_old_callee_refuted :
   exists file,
-    guard_flags key_today file = [true; true; true; true; true] /\
-    show (unused_vars key_today file) = [(2, 0, 1, 5, [120])] /\ unused_spec_ext file = [] /\
-    ~ Permutation (unused_vars key_today file) (unused_spec_ext file).
+    show (unused_vars_old key_today file) = [(2, 0, 1, 5, [120])] /\ unused_spec file = [] /\
+    ~ Permutation (unused_vars_old key_today file) (unused_spec file).
 Proof. exists w_callee. repeat split; try (vm_compute; reflexivity). not_perm. Qed.
 
-(* R6  `var x` ... `for x = 1 to 3`: the counter of a for is a token of the for node: reported unused *)
-Theorem C15_for_counter_refuted :
+Example C15_callee_regression :
+  analyze key_today w_callee = [] /\ unused_spec w_callee = [] /\
+  (* ... but a CALLED MEMBER `self.x(1)` is a member name *)
+  show (analyze key_today w_member_call) = [(2, 0, 1, 5, [120])] /\ unused_vars key_today w_member_call = unused_spec w_member_call.
+Proof. vm_compute. repeat split; reflexivity. Qed.
+
+(* R6  `var x` ... `for x = 1 to 3`: the counter of a for is a token of the for node: it was reported unused *)
+Theorem C15_old_for_counter_refuted :
   exists file,
-    guard_flags key_today file = [true; true; true; true; true] /\
-    show (unused_vars key_today file) = [(2, 0, 1, 5, [120])] /\ unused_spec_ext file = [] /\
-    ~ Permutation (unused_vars key_today file) (unused_spec_ext file).
+    show (unused_vars_old key_today file) = [(2, 0, 1, 5, [120])] /\ unused_spec file = [] /\
+    ~ Permutation (unused_vars_old key_today file) (unused_spec file).
 Proof. exists w_forctr. repeat split; try (vm_compute; reflexivity). not_perm. Qed.
 
-(* R7  `var x` ... `self.x[1] = 2`: the member name is the first child of the array access: counted as a use *)
-Theorem C15_indexed_member_refuted :
+Example C15_for_counter_regression :
+  analyze key_today w_forctr = [] /\ unused_spec w_forctr = [].
+Proof. vm_compute. split; reflexivity. Qed.
+
+(* R7  `var x` ... `self.x[1] = 2`: the member name is the first child of the array access: it counted as a use *)
+Theorem C15_old_indexed_member_refuted :
   exists file,
-    guard_flags key_today file = [true; true; true; true; true] /\
-    unused_vars key_today file = [] /\ show (unused_spec_ext file) = [(2, 0, 1, 5, [120])] /\
-    ~ Permutation (unused_vars key_today file) (unused_spec_ext file).
+    unused_vars_old key_today file = [] /\ show (unused_spec file) = [(2, 0, 1, 5, [120])] /\
+    ~ Permutation (unused_vars_old key_today file) (unused_spec file).
 Proof. exists w_indexed. repeat split; try (vm_compute; reflexivity). not_perm. Qed.
 
-(* where none of the three constructs occurs the two specifications coincide, e.g. on w_ok *)
-Example C15_spec_ext_nonvacuous :
-  unused_spec_ext w_ok = unused_spec w_ok /\ length (unused_spec w_ok) = 2%nat.
+Example C15_indexed_member_regression :
+  show (analyze key_today w_indexed) = [(2, 0, 1, 5, [120])] /\ unused_vars key_today w_indexed = unused_spec w_indexed.
 Proof. vm_compute. split; reflexivity. Qed.
+
+(* the method header is not a statement: a method named like its own local (`proc x` / `var x`), a parameter
+   named like a local (`proc p(x : int4)` / `var x`): the local is unused.  (The tree-level specification
+   of the old development read the whole method node and called both locals mentioned.) *)
+Example C15_header_regression :
+  show (analyze key_today w_hdr_name) = [(2, 0, 1, 5, [120])] /\ unused_vars key_today w_hdr_name = unused_spec w_hdr_name /\
+  show (analyze key_today w_hdr_param) = [(2, 0, 1, 5, [120])] /\ unused_vars key_today w_hdr_param = unused_spec w_hdr_param.
+Proof. vm_compute. repeat split; reflexivity. Qed.
 
 Print Assumptions C15_unused_exact.
 Print Assumptions C15_unused_exact_today.
-Print Assumptions C15_method_warnings_exactly.
-Print Assumptions C15_method_report_alone.
+Print Assumptions C15_reported_iff.
+Print Assumptions C15_mentions_reading.
+Print Assumptions C15_duplicates_exact.
+Print Assumptions C15_method_report_exactly.
 Print Assumptions C15_report_decomposes.
+Print Assumptions C15_report_methods_only.
 Print Assumptions C15_unused_per_method.
+Print Assumptions C15_methods_top_level.
+Print Assumptions C15_unused_exact_parsed.
+Print Assumptions C15_method_report_alone.
 Print Assumptions C15_placement.
 Print Assumptions C15_placement_token.
 Print Assumptions C15_unused_rename.
 Print Assumptions C15_unused_rename_today.
-Print Assumptions C15_guards_checked.
 Print Assumptions C15_nonvacuous.
+Print Assumptions C15_mixed_nonvacuous.
+Print Assumptions C15_reported_iff_nonvacuous.
+Print Assumptions C15_methods_only_nonvacuous.
+Print Assumptions C15_method_alone_nonvacuous.
 Print Assumptions C15_per_method_nonvacuous.
 Print Assumptions C15_rename_nonvacuous.
 Print Assumptions C15_case_regression.
 Print Assumptions C15_literal_regression.
-Print Assumptions C15_per_method_refuted.
-Print Assumptions C15_trailing_refuted.
-Print Assumptions C15_use_before_decl_refuted.
-Print Assumptions C15_duplicate_refuted.
-Print Assumptions C15_callee_refuted.
-Print Assumptions C15_for_counter_refuted.
-Print Assumptions C15_indexed_member_refuted.
-Print Assumptions C15_spec_ext_nonvacuous.
+Print Assumptions C15_duplicate_regression.
+Print Assumptions C15_old_trailing_refuted.
+Print Assumptions C15_trailing_regression.
+Print Assumptions C15_old_use_before_decl_refuted.
+Print Assumptions C15_use_before_decl_regression.
+Print Assumptions C15_old_callee_refuted.
+Print Assumptions C15_callee_regression.
+Print Assumptions C15_old_for_counter_refuted.
+Print Assumptions C15_for_counter_regression.
+Print Assumptions C15_old_indexed_member_refuted.
+Print Assumptions C15_indexed_member_regression.
+Print Assumptions C15_header_regression.
